@@ -59,6 +59,24 @@ def gen_boundary(tier, rng):
                     cases.append(rz.resize_case(pt, sw, sh, dw, dh, alg=alg, flt=flt, m=m, alpha=n % 2 == 0, cpu=rz.pick(n, 102, rz.CPUS),
                                                 src_c={"g": "rand", "seed": n, "flo": 0.0, "fhi": 1.0}, src_lay=slay, dst_lay=dlay,
                                                 api="typed" if typed else "dyn", log=("digest",), chk=("pipeline", "no_panic", "outside", "srcsame")))
+    # 1b. integer down-scales whose windows end exactly at the right / bottom edge with lengths 2..16 (vector loads at the row end),
+    #     exactly-sized sources flush against the guard page
+    for pt in rz.ALL_PT:
+        for f in (2, 3, 4, 5, 6, 7, 8, 10, 12, 15, 16):
+            for flt in ("Box", "Bilinear"):
+                for (dw, dh) in ((5, 3), (1, 1), (4, 4), (7, 2)):
+                    n += 1
+                    if rz.pick(n, 407, range(3 if tier == "quick" else 1)):
+                        continue
+                    horiz = rz.pick(n, 408, [True, False])
+                    sw, sh = (dw * f, dh) if horiz else (dw, dh * f)
+                    cases.append(rz.resize_case(pt, sw, sh, dw, dh, alg="conv", flt=flt, alpha=False, cpu=rz.pick(n, 409, rz.CPUS),
+                                                src_c={"g": "rand", "seed": n, "flo": 0.0, "fhi": 1.0}, src_lay=rz.pick(n, 410, [srcs[0], srcs[4]]),
+                                                dst_lay={"k": "slice", "guard": 1} if True else None,
+                                                api="dyn", log=("digest",), chk=("pipeline", "no_panic", "outside", "srcsame")))
+                    if cases[-1]["src"]["lay"]["k"].startswith("typed"):
+                        cases[-1]["api"] = "typed"
+                        cases[-1]["dst"]["lay"] = {"k": "typed", "guard": 1}
     # 2. crop boxes: flush against every edge, sub-pixel, rational grid (pipeline-checked)
     Q = 8
     for pt in ("U8", "U8x3", "U8x4", "U16x2", "U16x3", "I32", "F32x3", "F32x4"):
